@@ -10,9 +10,11 @@ PATCH=$OUT/patch$sfx.diff; DEMO=$OUT/demo$sfx; META=$OUT/meta$sfx.json
 [ -f "$PATCH" ] || { echo "no $PATCH"; exit 2; }
 export GOFLAGS=-mod=mod GOPROXY=off GOSUMDB=off GOTOOLCHAIN=local
 WT=/tmp/sd/wt-$lc-$N; rm -rf $WT; mkdir -p /tmp/sd; git -C /repo worktree prune; git -C /repo worktree add --detach $WT HEAD -q || exit 2
-DEST=/verif/seeded/$ID-$N; mkdir -p $DEST; LOG=$DEST/confirm.log; : > $LOG
+DEST=/verif/seeded/$ID-$N; mkdir -p $DEST; LOG=$DEST/confirm.log
+[ -n "$DEMO_ONLY" ] && LOG=$DEST/confirm-demo.log
+: > $LOG
 rundemo() { # run the non-comment lines of RUN.txt in the worktree
-  ( cd $WT; grep -v '^\s*#' $DEMO/RUN.txt | grep -v '^\s*$' | sed "s#/tmp/rt/$lc-out#@@OUT@@#g; s#/tmp/rt/$lc#$WT#g; s#@@OUT@@#$OUT#g" > /tmp/sd/run-$lc-$N.sh; timeout 900 bash /tmp/sd/run-$lc-$N.sh 2>&1 | tail -40 )
+  ( cd $WT; grep -E '^\s*(export |cp |go |rm |mkdir |cd |GOFLAGS=|GOMAXPROCS=|CGO_ENABLED=|touch |chmod )' $DEMO/RUN.txt | grep -v 'git ' | sed "s#/tmp/rt/$lc-out#@@OUT@@#g; s#/tmp/rt/$lc#$WT#g; s#@@OUT@@#$OUT#g" > /tmp/sd/run-$lc-$N.sh; timeout 900 bash /tmp/sd/run-$lc-$N.sh 2>&1 | tail -40 )
 }
 echo "== demo WITHOUT the change" | tee -a $LOG; rundemo | tee -a $LOG | grep -E "^(--- |ok|FAIL|PASS|panic)" | head -8
 git -C $WT checkout -q -- . ; git -C $WT clean -fdq
@@ -32,6 +34,7 @@ PY
 echo "== demo WITH the change" | tee -a $LOG; rundemo | tee -a $LOG | grep -E "^(--- |ok|FAIL|PASS|panic)" | head -8
 git -C $WT clean -fdq   # remove demo files, keep the change
 cp $PATCH $DEST/patch.diff; rm -rf $DEST/demo; cp -r $DEMO $DEST/demo; cp $META $DEST/meta.agent.json 2>/dev/null
+[ -n "$DEMO_ONLY" ] && CHECKS=""
 for c in $CHECKS; do
   echo "== VERIF_REPO=$WT ./check $c" | tee -a $LOG
   ( cd /verif && VERIF_REPO=$WT timeout 3000 ./check $c 2>&1 | grep -v "^WARNING" | tail -6 ) | tee -a $LOG
